@@ -24,6 +24,7 @@ type thread struct {
 	virtual bool
 	alias   int
 	obj     any
+	daemon  bool // does not keep Run alive (harness pseudo-threads: environment events)
 }
 
 // Step is one element of the lock-step trace.
@@ -50,6 +51,14 @@ type Sched struct {
 	Choices  []Choice
 	MaxSteps int
 	Overrun  bool
+	// TimerOwner maps the thread id of a select timer (SelectClosedOrTimer) to the thread that runs the select.
+	TimerOwner map[int]int
+	// ClosedGate, if set, decides whether a channel given to SelectClosedOrTimer counts as closed (the
+	// harness releases the close as an explicit environment step); nil = look at the channel itself.
+	ClosedGate func(ch <-chan struct{}) bool
+	// LastSelect is the branch taken by the most recent SelectClosedOrTimer (0 = channel closed, 1 = timer).
+	LastSelect int
+	released   bool
 }
 
 // Choice records one scheduling decision (for DFS exploration).
@@ -223,7 +232,9 @@ func (s *Sched) Run() {
 			if t.done || t.virtual {
 				continue
 			}
-			alive++
+			if !t.daemon {
+				alive++
+			}
 			if t.enabled == nil || t.enabled() {
 				enabled = append(enabled, t.id)
 			}
@@ -373,3 +384,119 @@ func Explore(bound int, maxRuns int, run func(choose func([]int, int) int) []Cho
 	}
 	return runs
 }
+
+// ---- additions for the Start/Stop harness (syslife); nothing above depends on them ----
+
+// SpawnDaemon registers a harness pseudo-thread (an environment event source). It is scheduled like any
+// other thread but does not keep Run alive: Run returns when every non-daemon thread has finished.
+func (s *Sched) SpawnDaemon(label string, f func()) int {
+	id := s.Spawn(label, f)
+	s.threads[id].daemon = true
+	return id
+}
+
+// YieldIf is a scheduling point that is enabled only while cond() holds.
+func YieldIf(label string, cond func() bool) {
+	if cur == nil || cur.current == nil {
+		return
+	}
+	cur.park(label, cond)
+}
+
+// SelectClosedOrTimer replaces
+//
+//	select { case <-ch: A  case <-time.After(d): B }
+//
+// where ch is a channel that is only ever closed. It returns 0 for the first branch and 1 for the second.
+// Under the controlled scheduler the timer is a thread of its own ("timer:<label>") that may fire at any
+// later scheduling decision (virtual time); the select is enabled when the channel counts as closed
+// (ClosedGate) or the timer has fired, and prefers the channel when both hold.
+func SelectClosedOrTimer(ch <-chan struct{}, d time.Duration, label string) int {
+	if cur == nil || cur.current == nil {
+		select {
+		case <-ch:
+			return 0
+		case <-time.After(d):
+			return 1
+		}
+	}
+	s := cur
+	owner := s.current.id
+	fired := false
+	tid := s.Spawn("timer", func() {
+		Yield("timer:" + label)
+		fired = true
+	})
+	s.threads[tid].label = "timer-start"
+	if s.TimerOwner == nil {
+		s.TimerOwner = map[int]int{}
+	}
+	s.TimerOwner[tid] = owner
+	closed := func() bool {
+		if s.ClosedGate != nil {
+			return s.ClosedGate(ch)
+		}
+		select {
+		case <-ch:
+			return true
+		default:
+			return false
+		}
+	}
+	s.park(label, func() bool { return closed() || fired })
+	if s.released { // the run was abandoned while this thread was parked: behave like the real select
+		select {
+		case <-ch:
+			return 0
+		case <-time.After(d):
+			return 1
+		}
+	}
+	if closed() {
+		<-ch
+		s.LastSelect = 0
+		return 0
+	}
+	s.LastSelect = 1
+	return 1
+}
+
+// Release abandons the run: every thread that is still parked is resumed and continues as an ordinary
+// goroutine (all vsched operations fall through to the real ones once no scheduler is installed), so that
+// the harness can shut the system under test down with real calls. Call it after Run has returned. The
+// returned channel is closed when every released thread has finished; a new scheduler must not be
+// installed before that (a stray goroutine of this run would otherwise talk to it).
+func (s *Sched) Release() <-chan struct{} {
+	s.released = true
+	n := 0
+	for _, t := range s.threads {
+		if !t.done && !t.virtual {
+			n++
+		}
+	}
+	all := make(chan struct{})
+	go func() { // swallow the completion notices
+		for i := 0; i < n; i++ {
+			<-s.notify
+		}
+		close(all)
+	}()
+	for _, t := range s.threads {
+		if !t.done && !t.virtual {
+			t := t
+			go func() { t.resume <- struct{}{} }()
+		}
+	}
+	return all
+}
+
+// ThreadLabel returns the label a thread is parked at ("" if finished).
+func (s *Sched) ThreadLabel(id int) (label string, done bool) {
+	if id < 0 || id >= len(s.threads) {
+		return "", true
+	}
+	return s.threads[id].label, s.threads[id].done
+}
+
+// NumThreads is the number of threads registered so far.
+func (s *Sched) NumThreads() int { return len(s.threads) }
